@@ -141,17 +141,17 @@ theorem renameArguments_total (names : List String) (o : Opt) :
   simp only [renameArgumentsAction]
   split <;> rfl
 
-/-- `DisjunctionAsOptions`: the index is in range and the argument there is neither a union nor a
-    reference (the two cases in which the action goes on to rewrite the option) -/
+/-- `DisjunctionAsOptions` BEFORE fix 423e7f3 of /repo: the index is in range and the argument there is
+    neither a union nor a reference (the two cases in which the action goes on to rewrite the option) -/
 def disjunctionIndexOk (idx : Int) (o : Opt) : Bool :=
   o.args.isEmpty ||
     (0 ≤ idx && (match o.args[idx.toNat]? with
       | some target => !kindIs target.ty "disjunction" && !kindIs target.ty "ref"
       | none => false))
 
-theorem disjunctionAsOptions_total (idx : Int) (ss : Schemas) (o : Opt) (h : disjunctionIndexOk idx o = true) :
-    isPanic (disjunctionAsOptionsAction idx ss o) = false := by
-  simp only [disjunctionAsOptionsAction]
+theorem disjunctionAsOptionsPreFix_total (idx : Int) (ss : Schemas) (o : Opt) (h : disjunctionIndexOk idx o = true) :
+    isPanic (disjunctionAsOptionsActionPreFix idx ss o) = false := by
+  simp only [disjunctionAsOptionsActionPreFix]
   split
   · rfl
   · rename_i hne
@@ -165,5 +165,41 @@ theorem disjunctionAsOptions_total (idx : Int) (ss : Schemas) (o : Opt) (h : dis
       simp only [hg, Bool.and_eq_true, Bool.not_eq_true'] at h
       simp only [disjunctionOnTarget, h.2.1, h.2.2, Bool.false_eq_true, if_false]
       rfl
+
+/-- since fix 423e7f3 an index outside the option's arguments returns the option unchanged: the only
+    condition left is on the argument that IS selected (not a union / reference, whose rewriting is not
+    under a theorem) -/
+def disjunctionTargetOk (idx : Int) (o : Opt) : Bool :=
+  idx < 0 || (match o.args[idx.toNat]? with
+    | some target => !kindIs target.ty "disjunction" && !kindIs target.ty "ref"
+    | none => true)
+
+theorem disjunctionAsOptions_total (idx : Int) (ss : Schemas) (o : Opt) (h : disjunctionTargetOk idx o = true) :
+    isPanic (disjunctionAsOptionsAction idx ss o) = false := by
+  simp only [disjunctionAsOptionsAction]
+  split
+  · rfl
+  · split
+    · rfl
+    · rename_i hge
+      have hlt : (decide (idx < 0)) = false := by simpa using hge
+      simp only [disjunctionTargetOk, hlt, Bool.false_or] at h
+      cases hg : o.args[idx.toNat]? with
+      | none => rfl
+      | some target =>
+        simp only [hg, Bool.and_eq_true, Bool.not_eq_true'] at h
+        simp only [disjunctionOnTarget, h.1, h.2, Bool.false_eq_true, if_false]
+        rfl
+
+/-- an index outside the arguments never panics any more, whatever the option -/
+theorem disjunctionAsOptions_out_of_range (idx : Int) (ss : Schemas) (o : Opt)
+    (h : idx < 0 ∨ o.args.length ≤ idx.toNat) : isPanic (disjunctionAsOptionsAction idx ss o) = false := by
+  apply disjunctionAsOptions_total
+  simp only [disjunctionTargetOk, Bool.or_eq_true, decide_eq_true_eq]
+  rcases h with h | h
+  · exact Or.inl h
+  · right
+    have : o.args[idx.toNat]? = none := by simp [h]
+    simp [this]
 
 end Cog.Total
